@@ -5,7 +5,7 @@
         // the signals of an event are exactly its signal tags, in order (the CLI quits on an unmapped interrupt/terminate found this way)
         ensures r.v@ == filter_map_seq(self.tags@, |t: Tag| match t { Tag::Signal(s) => Some(s), _ => None::<Signal> }), // OBL:C01+C08.event.signals_are_the_signal_tags
 //@ closure 0
-|p: &Tag| -> (vx_r: Option<Signal>) ensures vx_r == (match *p { Tag::Signal(s) => Some(s), _ => None::<Signal> })
+|p: &Tag| -> (vx_r: Option<Signal>) ensures vx_r == (match *p { Tag::Signal(s) => Some(s), _ => None::<Signal> }) /* OBL:C01+C08.event.signals_are_the_signal_tags */
 //@ closure_ghost 0
 Ghost(|t: Tag| match t { Tag::Signal(s) => Some(s), _ => None::<Signal> })
 //@ item Event::paths
@@ -14,7 +14,7 @@ Ghost(|t: Tag| match t { Tag::Signal(s) => Some(s), _ => None::<Signal> })
         // the paths of an event are exactly its path tags with their file types, in order (what the filterers look at)
         ensures r.v@ == filter_map_seq(self.tags@, |t: Tag| match t { Tag::Path { path, file_type } => Some((path, file_type)), _ => None::<(PathS, Option<FileType>)> }), // OBL:C01+C03+C11.event.paths_are_the_path_tags
 //@ closure 0
-|p: &Tag| -> (vx_r: Option<(PathS, Option<FileType>)>) ensures vx_r == (match *p { Tag::Path { path, file_type } => Some((path, file_type)), _ => None::<(PathS, Option<FileType>)> })
+|p: &Tag| -> (vx_r: Option<(PathS, Option<FileType>)>) ensures vx_r == (match *p { Tag::Path { path, file_type } => Some((path, file_type)), _ => None::<(PathS, Option<FileType>)> }) /* OBL:C01+C03+C11.event.paths_are_the_path_tags */
 //@ closure_ghost 0
 Ghost(|t: Tag| match t { Tag::Path { path, file_type } => Some((path, file_type)), _ => None::<(PathS, Option<FileType>)> })
 //@ item Event::is_empty
@@ -37,6 +37,8 @@ fn signal_send_event(errors: ErrTx, events: EvTx, sig: Signal, env: &mut SEnv) -
             && (accepted(old(env), final(env)) ==> final(env).err_attempts == old(env).err_attempts && r is Ok)
             // a closed event queue is reported as a runtime error (once); only a closed error channel is critical
             && (!accepted(old(env), final(env)) ==> final(env).err_attempts@ == old(env).err_attempts@ + 1 && (r is Ok <==> final(env).errs@.len() == old(env).errs@.len() + 1)), // OBL:C01+C15.signal_send_event.one_event_exact_tags_and_priority
+        // the signal source waits for room in the event queue: a signal is never refused because the queue is full
+        final(env).nowait_sends == old(env).nowait_sends, // OBL:C01.signal_send_event.waits_for_room_never_drops_on_a_full_queue
 //@ item keyboard::send_event
 //@ header
 fn keyboard_send_event(errors: ErrTx, events: EvTx, msg: Keyboard, env: &mut SEnv) -> (r: Result<(), CriticalError>)
@@ -44,6 +46,7 @@ fn keyboard_send_event(errors: ErrTx, events: EvTx, msg: Keyboard, env: &mut SEn
         one_send(old(env), final(env), keyboard_tags(msg), Priority::Normal)
             && (accepted(old(env), final(env)) ==> final(env).err_attempts == old(env).err_attempts && r is Ok)
             && (!accepted(old(env), final(env)) ==> final(env).err_attempts@ == old(env).err_attempts@ + 1 && (r is Ok <==> final(env).errs@.len() == old(env).errs@.len() + 1)), // OBL:C01+C15.keyboard_send_event.one_event_exact_tags_normal_priority
+        final(env).nowait_sends == old(env).nowait_sends, // OBL:C01.keyboard_send_event.waits_for_room_never_drops_on_a_full_queue
 //@ item fs::process_event
 //@ header
 fn process_event(nev: Result<NotifyEvent, NotifyError>, kind: Watcher, n_events: &EvTx, env: &mut SEnv) -> (r: Result<(), RuntimeError>)
@@ -73,5 +76,6 @@ fn watcher_callback(nev: Result<NotifyEvent, NotifyError>, config_watcher: Watch
 pub fn send_event(&self, event: Event, priority: Priority, env: &mut SEnv) -> (r: Result<(), CriticalError>)
     ensures
         one_send(old(env), final(env), event.tags@, priority) && (r is Ok <==> accepted(old(env), final(env))), // OBL:C01.Watchexec_send_event.queues_exactly_the_given_event
+        final(env).nowait_sends == old(env).nowait_sends, // OBL:C01.Watchexec_send_event.waits_for_room_never_drops_on_a_full_queue
         final(env).errs == old(env).errs,
 //@ end
